@@ -110,6 +110,15 @@ def gen_pipeline(rng, mode):
                 st["groups"][0]["procs"] = rng.choice([None, 1, 2])
                 for j in st["jobs"]:
                     j["group"] = 0
+    if mode == "plain":
+        # multi-node allocations (hpc.nodes >= 2: srun starts run-jobs on every node of a batch's allocation) in some
+        # HPC stages; drawn from a stream of its own, so that the pipelines without them are the ones they always were
+        r2 = random.Random(json.dumps(sc, sort_keys=True))
+        if r2.random() < float(os.environ.get("VERIF_MULTINODE") or .2):
+            for st in sc["stages"]:
+                if not st.get("local") and r2.random() < .7:
+                    for g in st["groups"]:
+                        g["nodes"] = r2.choice([2, 2, 3])
     if mode == "faults":
         kinds = ["squeue7"] * 4 + ["forkfail"] * 3 + ["kill"] * 2 + ["nodelost", "dupnext", "sbatchfail", "killnext"]
         plan = [rng.choice(kinds)]
@@ -192,9 +201,9 @@ class Run:
         for p in vc.live():
             if vc.enabled(p.pid):
                 w = 1.0
-                if self.style == "nodes" and p.kind == "node":
+                if self.style == "nodes" and p.kind in ("node", "worker"):
                     w = 4.0
-                if self.style == "submitters" and p.kind != "node":
+                if self.style == "submitters" and p.kind not in ("node", "worker"):
                     w = 4.0
                 if self.style == "bursty" and self.last == ("step", p.pid):
                     w = 6.0
@@ -912,6 +921,8 @@ class SysPipeSuite(Suite):
         if nl:
             t.append("stages.local=all" if nl == len(case["sc"]["stages"]) else "stages.local=some")
         t.append("batches>=3" if o["batches"] >= 3 else "trivial.batches<3")
+        if any(g.get("nodes") for st in case["sc"]["stages"] for g in st["groups"]):
+            t.append("multinode.stages")
         if o["complete"]:
             t.append("pipeline.complete")
         for f in o["faults"]:
